@@ -174,12 +174,12 @@ Important class members::
         return max(0,len(self._stepmon)-1)
 
     def __energy_history(self):
-        """get the energy_history (default: energy_history = _stepmon._y)"""
-        if self._energy_history is None: return self._stepmon._y
+        """get the energy_history (default: energy_history = _stepmon.y)"""
+        if self._energy_history is None: return self._stepmon.y
         return self._energy_history
 
     def __set_energy_history(self, energy):
-        """set the energy_history (energy=None will sync with _stepmon._y)"""
+        """set the energy_history (energy=None will sync with _stepmon.y)"""
         self._energy_history = energy
         return
 
